@@ -186,8 +186,8 @@ class _Callee:
                     self.reason = 'generator'
                 elif isinstance(n, (ast.Global, ast.Nonlocal)):
                     self.reason = 'global/nonlocal'
-                elif isinstance(n, (ast.FunctionDef, ast.AsyncFunctionDef, ast.ClassDef)):
-                    self.reason = 'nested definition'
+                elif isinstance(n, (ast.AsyncFunctionDef, ast.ClassDef)):
+                    self.reason = 'nested class / async definition'
                 elif isinstance(n, ast.Call) and isinstance(n.func, ast.Name) and n.func.id in ('locals', 'vars', 'super'):
                     self.reason = 'locals()/super()'
         self.kwarg = a.kwarg.arg if a.kwarg else None
@@ -212,6 +212,8 @@ class _Callee:
         for n in _own_nodes(wrap):
             if isinstance(n, ast.ExceptHandler) and n.name:
                 self.stores.add(n.name)
+            elif isinstance(n, ast.FunctionDef):
+                self.stores.add(n.name)         # a closure defined in the helper is one of its locals
         self.attr_stores = {n.attr for n in _own_nodes(node) if isinstance(n, ast.Attribute) and isinstance(n.ctx, (ast.Store, ast.Del))}
         if any(isinstance(n, ast.Subscript) and isinstance(n.ctx, (ast.Store, ast.Del)) for n in _own_nodes(node)):
             self.attr_stores.add('<subscript>')
@@ -222,6 +224,10 @@ class _Callee:
                 self.scoped |= {x.id for x in ast.walk(n.target) if isinstance(x, ast.Name)}
             elif isinstance(n, ast.Lambda):
                 self.scoped |= {x.arg for x in n.args.args + n.args.kwonlyargs}
+            elif isinstance(n, ast.FunctionDef) and n is not node:
+                # names bound inside a closure shadow the helper's names there
+                self.scoped |= {x.arg for x in ast.walk(n.args) if isinstance(x, ast.arg)}
+                self.scoped |= {x.id for x in ast.walk(n) if isinstance(x, ast.Name) and isinstance(x.ctx, ast.Store)}
         self.pure_expr = len(body) == 1 and isinstance(body[0], ast.Return) and body[0].value is not None
         # pure decision tree: usable as an expression where only the truth value counts (the duplicated test of the general
         # if/else form must be free of calls: it would be evaluated twice)
@@ -304,6 +310,18 @@ class _Subst(ast.NodeTransformer):
 
     def visit_ExceptHandler(self, node):
         self.generic_visit(node)
+        if node.name in self.rename:
+            node.name = self.rename[node.name]
+        return node
+
+    def visit_FunctionDef(self, node):
+        # closure: its own parameters and locals shadow the outer names
+        bound = {x.arg for x in ast.walk(node.args) if isinstance(x, ast.arg)} | \
+            {x.id for x in ast.walk(node) if isinstance(x, ast.Name) and isinstance(x.ctx, ast.Store)}
+        inner = _Subst({k: v for k, v in self.expr_map.items() if k not in bound}, {k: v for k, v in self.rename.items() if k not in bound},
+                       self.kwarg, self.extra)
+        node.body = [inner.visit(s) for s in node.body]
+        node.args.defaults = [self.visit(d) for d in node.args.defaults]
         if node.name in self.rename:
             node.name = self.rename[node.name]
         return node
@@ -561,12 +579,45 @@ class Inliner:
         self.gnames.add(name)
         return name
 
-    def instantiate(self, callee, call, depth):
+    def unify_targets(self, callee, binding, targets):
+        """callee locals that are returned in the position of a target name take that name (no copy at the end): {local: target}"""
+        if not targets:
+            return {}
+        rets = [n for n in _own_nodes(ast.Module(body=callee.body, type_ignores=[])) if isinstance(n, ast.Return)]
+        if not rets:
+            return {}
+        argnames = set()
+        for v in binding.values():
+            argnames |= _names(v)
+        m = {}
+        for r in rets:
+            v = r.value
+            elts = [v] if len(targets) == 1 and isinstance(v, ast.Name) else v.elts if isinstance(v, ast.Tuple) else None
+            if elts is None or len(elts) != len(targets) or not all(isinstance(e, ast.Name) for e in elts):
+                return {}
+            for e, t in zip(elts, targets):
+                if m.get(e.id, t) != t:
+                    return {}
+                m[e.id] = t
+        locals_ = callee.stores - set(callee.params)
+        if len(set(m.values())) != len(m) or not set(m) <= locals_:
+            return {}
+        others = (locals_ | set(callee.params)) - set(m)
+        if set(m.values()) & (argnames | others):
+            return {}
+        return m
+
+    def instantiate(self, callee, call, depth, targets=None):
         """-> (prelude statements, body statements with names substituted)"""
         binding = callee.bind(call)
         body = _copy_tree(callee.body)
         rename, expr_map, prelude = {}, {}, []
+        unify = self.unify_targets(callee, binding, targets)
         for v in sorted(callee.stores - set(callee.params)):
+            if v in unify:
+                if unify[v] != v:
+                    rename[v] = unify[v]
+                continue
             if v in self.gnames:
                 rename[v] = self.fresh('%s__%s' % (v, callee.name.strip('_')))
             else:
@@ -629,11 +680,18 @@ class Inliner:
                 return ('hoist', [])
         if cond:
             raise CannotInline('conditionally evaluated position')
-        prelude, body = self.instantiate(callee, call, depth)
         whole = self.is_whole_value(st, call)
+        targets = None
+        if whole and isinstance(st, ast.Assign) and len(st.targets) == 1 and self.plain_target(st.targets[0]):
+            t0 = st.targets[0]
+            targets = [t0.id] if isinstance(t0, ast.Name) else [e.id for e in t0.elts]
+            if len(set(targets)) != len(targets):
+                targets = None
+        prelude, body = self.instantiate(callee, call, depth, targets)
         if whole and isinstance(st, ast.Return):
-            new, falls = _eliminate_returns(body, lambda v, r: [ast.copy_location(ast.Return(value=v), r)])
-            if falls:
+            # tail call: the callee's returns are the caller's returns, the body is spliced unchanged
+            new = list(body)
+            if not new or not isinstance(new[-1], (ast.Return, ast.Raise)):
                 new.append(ast.copy_location(ast.Return(value=None), st))
             return ('replace', self.fix(prelude + new))
         if whole and isinstance(st, ast.Expr):
@@ -645,8 +703,13 @@ class Inliner:
             return ('replace', self.fix(prelude + (new or [ast.copy_location(ast.Pass(), st)])))
         if whole and isinstance(st, ast.Assign) and len(st.targets) == 1 and self.plain_target(st.targets[0]):
             tgt = st.targets[0]
-            new, falls = _eliminate_returns(body, lambda v, r: [ast.copy_location(
-                ast.Assign(targets=[_copy_tree(tgt)], value=v if v is not None else ast.Constant(value=None)), r)])
+
+            def mk_assign(v, r):
+                if v is not None and ast.unparse(v) == ast.unparse(tgt):
+                    return []           # the returned locals already carry the target names
+                return [ast.copy_location(ast.Assign(targets=[_copy_tree(tgt)], value=v if v is not None else ast.Constant(value=None)), r)]
+            new, falls = _eliminate_returns(body, mk_assign)
+            new = new or [ast.copy_location(ast.Pass(), st)]
             if falls:
                 new.append(ast.copy_location(ast.Assign(targets=[_copy_tree(tgt)], value=ast.Constant(value=None)), st))
             return ('replace', self.fix(prelude + new))
